@@ -89,6 +89,11 @@ type Config struct {
 	HotAll   bool    // every package is a preemption candidate
 	// NoClockDeviation: never offer "clock fires while a thread is enabled" as an option.
 	NoClockDeviation bool
+	// ClockDeviationMax bounds how far ahead the next timer may be for "the timer fires while
+	// threads are still runnable" to be offered as a deviation (0 = 10ms). A runnable thread
+	// can plausibly be delayed by milliseconds, not by the seconds a grace timer or a poll
+	// ticker needs; without the bound every long timer could fire at every point.
+	ClockDeviationMax time.Duration
 	// Local, when non-nil, is the set of object ordinals known to be touched by one thread
 	// only (explorer-maintained reduction); operations on them are not preemption candidates.
 	Local map[int]bool
@@ -557,7 +562,7 @@ func (s *State) options(self *Thread) (opts []*Thread, flags uint8) {
 		clockWanted = false
 	}
 	if len(opts) > 0 {
-		if clockWanted && !s.det && !s.cfg.NoClockDeviation {
+		if clockWanted && !s.det && !s.cfg.NoClockDeviation && s.nextTimerWithin(s.cfg.ClockDeviationMax) {
 			opts = append(opts, clockThread)
 			flags |= FClockLast
 		}
@@ -1190,6 +1195,17 @@ func (s *State) ResetTimer(t *VTimer, d time.Duration) bool {
 	}
 	heap.Push(&s.timers, t)
 	return was
+}
+
+// nextTimerWithin reports whether the earliest timer is due within d of the virtual now.
+func (s *State) nextTimerWithin(d time.Duration) bool {
+	if len(s.timers) == 0 {
+		return false
+	}
+	if d == 0 {
+		d = 10 * time.Millisecond
+	}
+	return s.timers[0].deadline-s.now <= int64(d)
 }
 
 // tick advances the virtual clock to the earliest timer and fires it.
